@@ -175,10 +175,10 @@ class CodecPairs(Stream):
         {"codec": "etag", "e": hs(e), "weak": w} for w in (False, True) for e in ["", "abc", "a b", 'a"b', "W/x", " x ", "*", "a,b"]
     ] + [
         {"codec": "etags", "strong": [hs(x) for x in s], "weak": [hs(x) for x in w], "star": st}
-        for s, w, st in [([], [], False), (["a"], [], False), ([], ["a"], False), (["a", "b"], ["c"], False), ([], [], True), (["a"], ["b"], True), (["*"], [], False), (["a,b", " c "], ["W/x"], False), ([""], [], False), (["a\nb"], [], False), (["None"], [], False), (["é"], ["\U0001f600"], False)]
+        for s, w, st in [([], [], False), (["a"], [], False), ([], ["a"], False), (["a", "b"], ["c"], False), ([], [], True), (["a"], ["b"], True), (["*"], [], False), (["a,b", " c "], ["W/x"], False), ([""], [], False), (["a\nb"], [], False), (["None"], [], False), (["é"], ["\U0001f600"], False), ([""], [""], False), (["", "a"], [], False)]
     ] + [
         {"codec": "range", "units": hs(u), "ranges": rs}
-        for u, rs in [("bytes", [[0, 500]]), ("bytes", [[0, 1]]), ("bytes", [[5, None]]), ("bytes", [[-500, None]]), ("bytes", [[0, 10], [10, 20], [30, None]]), ("bytes", [[0, 10], [5, 20]]), ("bytes", [[-5, None], [0, 3]]), ("bytes", [[3, None], [5, 6]]), ("bytes", []), ("Bytes", [[0, 1]]), (" bytes", [[0, 1]]), ("a=b", [[0, 1]]), ("", [[0, 1]]), ("bytes", [[3, 3]]), ("bytes", [[-1, 5]]), ("bytes", [[0, None]]), ("items", [[10**30, 10**30 + 1]])]
+        for u, rs in [("bytes", [[0, 500]]), ("bytes", [[0, 1]]), ("bytes", [[5, None]]), ("bytes", [[-500, None]]), ("bytes", [[0, 10], [10, 20], [30, None]]), ("bytes", [[0, 10], [5, 20]]), ("bytes", [[-5, None], [0, 3]]), ("bytes", [[3, None], [5, 6]]), ("bytes", []), ("Bytes", [[0, 1]]), (" bytes", [[0, 1]]), ("a=b", [[0, 1]]), ("", [[0, 1]]), ("bytes", [[3, 3]]), ("bytes", [[-1, 5]]), ("bytes", [[0, None]]), ("items", [[10**30, 10**30 + 1]]), ("bytes", [[0, 5], [0, None]]), ("bytes", [[-1, None]])]
     ] + [
         {"codec": "crange", "units": opt(hs, u), "start": s, "stop": e, "length": ln}
         for u, s, e, ln in [("bytes", 0, 500, 1000), ("bytes", 0, 1, None), ("bytes", None, None, 1000), ("bytes", None, None, None), ("bytes", 5, 10, 7), ("bytes", 0, 10, 0), (None, None, None, None), ("by tes", 0, 1, 2), ("", 0, 1, 2), ("bytes", None, None, 0), ("a/b-c", 1, 2, 3), ("bytes", 5, 5, 10), ("bytes", -1, 5, 10), ("bytes", 0, 5, -1)]
@@ -517,8 +517,8 @@ class CodecPairs(Stream):
             return line("pair.csp", out_list(k + ":" + v for k, v in case["d"]))
         if codec in ("auth", "www"):
             ty = case["type"]
-            if any(ord(c) > 0xFF for c in unhs(ty)):
-                return None  # str.lower()/title() above U+00FF are outside the model
+            if any(ord(c) > 0xFF for c in unhs(ty) + unhs(ty).title() + unhs(ty).lower().title()):
+                return None  # str.lower()/title() above U+00FF are outside the model (e.g. U+00FF titles to U+0178)
             if codec == "www":
                 ty = hs(unhs(ty).lower())  # WWWAuthenticate.__init__ lower-cases the type
                 if unhs(ty) != unhs(case["type"]).lower() or any(ord(c) > 0xFF for c in unhs(case["type"])):
@@ -580,7 +580,8 @@ class CodecPairs(Stream):
                 if last < 0:
                     return False
                 if e is None:
-                    if b < 0 and False:
+                    # open-ended `b-` must not start before the previous range ended; suffix `-n` may
+                    if b >= 0 and b < last:
                         return False
                     last = -1
                     continue
